@@ -479,6 +479,21 @@ impl Monitor for OwedQuoteMon {
             }
             Err(e) => fail(acc, "fees_quote_fails", format!("program updated the position; sdk collect_fees_quote error: {e}")),
         }
+        // with the mints' transfer fees: what the owner would receive from ONE collection of the owed amounts
+        let (tfa, tfb) = (transfer_fee(&obs.pre, &pre.token_mint_a), transfer_fee(&obs.pre, &pre.token_mint_b));
+        if tfa.is_some() || tfb.is_some() {
+            acc.count("owed_quotes_with_transfer_fee");
+            let net = |mint: &Pubkey, x: u64| x - vcheck::checks::c16::mint_fee(&obs.pre, mint, x).min(x);
+            let want = (net(&pre.token_mint_a, np.fee_owed_a), net(&pre.token_mint_b, np.fee_owed_b));
+            match quiet_catch(|| sdk::collect_fees_quote(pf, posf, tl, tu, tfa, tfb)).unwrap_or(Err("sdk panicked")) {
+                Ok(q) => {
+                    if (q.fee_owed_a, q.fee_owed_b) != want {
+                        fail(acc, "fees_after_transfer_fee", format!("program records fees owed ({}, {}), of which the owner receives {want:?} after the token program's fee; sdk collect_fees_quote gives ({}, {})", np.fee_owed_a, np.fee_owed_b, q.fee_owed_a, q.fee_owed_b));
+                    }
+                }
+                Err(e) => fail(acc, "fees_quote_fails", format!("sdk collect_fees_quote with transfer fees: {e}")),
+            }
+        }
         match quiet_catch(|| sdk::collect_rewards_quote(pf, posf, tl, tu, now, None, None, None)).unwrap_or(Err("sdk panicked")) {
             Ok(q) => {
                 let got = [q.rewards[0].rewards_owed, q.rewards[1].rewards_owed, q.rewards[2].rewards_owed];
